@@ -22,13 +22,11 @@ func ScanPngHeader(r io.ReadSeeker) (header meta.ExifHeader, err error) {
 	// This is just a coincidence.
 	buf := make([]byte, 8)
 
-	var n int
-	n, err = r.Read(buf)
-	if err != nil {
+	if _, err = io.ReadFull(r, buf); err != nil {
 		return
 	}
 
-	if n != len(signature) || string(buf) != signature {
+	if string(buf) != signature {
 		err = meta.ErrNoExif
 
 		return
@@ -36,12 +34,7 @@ func ScanPngHeader(r io.ReadSeeker) (header meta.ExifHeader, err error) {
 
 	for {
 		// 5.3 Chunk layout
-		n, err = r.Read(buf)
-		if err != nil {
-			break
-		}
-
-		if n != len(buf) {
+		if _, err = io.ReadFull(r, buf); err != nil {
 			break
 		}
 
